@@ -42,7 +42,7 @@ def case_strategy(draw, tier="quick"):
     k = draw(st.sampled_from([1, 2, 2, 3, 4]))
     dims = sch["dims"]
     nv = len(sch["vars"])
-    cfg = {"flushbuf": draw(st.sampled_from([0, 0, 64, 128, 512, 4096])), "shared": G.chance(draw, 30), "keep": G.chance(draw, 25)}
+    cfg = {"flushbuf": draw(st.sampled_from([0, 0, 1, 8, 64, 128, 512, 4096])), "shared": G.chance(draw, 30), "keep": G.chance(draw, 25)}
     numrecs = 0
     dirty = [None] * nv      # elements written since the last flush point (per variable, boolean)
 
